@@ -742,7 +742,11 @@ func (x *runner) mismatchCase(sd, sp, rd, rp int, start uint32, prehist int, los
 	count, convergedAt := 0, -1
 	runStart := x.enc.State().Next + uint32(skip)
 	overlaps := false
-	for convergedAt < 0 && count < bound+700 {
+	limit := bound + 700
+	if n > 255 {
+		limit = bound + 40
+	}
+	for convergedAt < 0 && count < limit {
 		grp := x.emitGroup(lens, true)
 		for _, s := range grp[min(skip, len(grp)):] {
 			pre := x.dec.State()
@@ -762,7 +766,11 @@ func (x *runner) mismatchCase(sd, sp, rd, rp int, start uint32, prehist int, los
 	} else {
 		x.o.Count("converge:never")
 	}
-	if convergedAt < 0 || convergedAt > bound {
+	if n > 255 {
+		// outside the property (d+p <= 255): the decoder refuses to adopt a ratio with d+p >= 256 and
+		// keeps tuning; only the correspondence with the model is checked
+		x.o.Count("converge:sender-sum-256")
+	} else if convergedAt < 0 || convergedAt > bound {
 		kind := "fec-converge-bound"
 		if overlaps {
 			kind = "fec-converge-near-paws"
@@ -1036,6 +1044,8 @@ func Run(o *hx.Out, g *hx.Rng, tier string) {
 			x.mismatchCase(m.sd, m.sp, m.rd, m.rp, st, g.Intn(80), true)
 		}
 	}
+	// --- a sender with d+p = 256 (the largest the encoder accepts): never adopted
+	x.mismatchCase(128, 128, 10, 3, 0, 0, false)
 	// --- D9: the run overlaps [paws' of the receiver, paws of the sender)
 	o.Count("scenario:d9-near-paws")
 	// (the junk of the pre-history leaves the window while the ids are in the blind zone)
